@@ -22,7 +22,8 @@ Record inv (s : state) : Prop := mk_inv {
   i_rigid : rigid s = true -> val_count s <> 0%nat /\ disposed s = false;
   i_pend : val_count s <> 0%nat -> disposed s = false -> rigid s = false -> (0 < pending s)%nat;
   i_live : acquired s = (released s + b2n (rigid s) + releasing s)%nat;
-  i_ref : has_ref s = false -> disposed s = true
+  i_ref : has_ref s = false -> disposed s = true;
+  i_nil : nil_budget s = 0%nat
 }.
 
 Lemma inv_init : inv init.
@@ -39,9 +40,9 @@ Ltac fin := constructor; cbn; intros; intuition (try lia; try congruence; try di
 Lemma inv_step s a s' :
   inv s -> link_action a = true -> step s a = Some s' -> inv s'.
 Proof.
-  intros [Io Iv Ir Ip Il If] La H. unfold step in H.
+  intros [Io Iv Ir Ip Il If In0] La H. unfold step in H.
   destruct (env_ok s a) eqn:E; [|discriminate]. injection H as <-.
-  destruct s as [ls ot vc rg hr dp pe re ac rl]. cbn in *.
+  destruct s as [ls ot vc rg hr dp pe re ac rl nb]. cbn in *. subst nb.
   destruct a; cbn in *; try discriminate.
   - (* Added *)
     destruct rg, dp; cbn in *; fin.
@@ -80,7 +81,7 @@ Lemma quiescent_exact acts s :
   live s = (if has_links s && negb (disposed s) then 1 else 0)%nat
   /\ rigid s = (has_links s && negb (disposed s)).
 Proof.
-  intros L H Q. pose proof (inv_run _ _ _ inv_init L H) as [Io Iv Ir Ip Il If].
+  intros L H Q. pose proof (inv_run _ _ _ inv_init L H) as [Io Iv Ir Ip Il If In0].
   unfold quiescent in Q. apply andb_true_iff in Q as [Q1 Q2].
   apply Nat.eqb_eq in Q1. apply Nat.eqb_eq in Q2.
   unfold live, has_links. rewrite <- Iv.
@@ -99,7 +100,7 @@ Lemma held_while_links acts s :
   pending s = 0%nat -> links s <> [] -> disposed s = false ->
   rigid s = true /\ (1 <= live s)%nat.
 Proof.
-  intros L H Q Hl D. pose proof (inv_run _ _ _ inv_init L H) as [Io Iv Ir Ip Il If].
+  intros L H Q Hl D. pose proof (inv_run _ _ _ inv_init L H) as [Io Iv Ir Ip Il If In0].
   assert (Z0 : val_count s <> 0%nat) by (rewrite Iv; destruct (links s); cbn; congruence).
   destruct (rigid s) eqn:R.
   - split; [reflexivity|]. unfold live. cbn in Il. lia.
@@ -114,7 +115,7 @@ Lemma released_when_gone acts s :
   live s = (b2n (rigid s) + releasing s)%nat
   /\ (links s = [] \/ disposed s = true -> rigid s = false /\ live s = releasing s).
 Proof.
-  intros L H. pose proof (inv_run _ _ _ inv_init L H) as [Io Iv Ir Ip Il If].
+  intros L H. pose proof (inv_run _ _ _ inv_init L H) as [Io Iv Ir Ip Il If In0].
   unfold live. split; [lia|]. intros G.
   assert (R : rigid s = false).
   { destruct (rigid s) eqn:R; [|reflexivity]. destruct (Ir eq_refl) as [A B].
@@ -127,7 +128,7 @@ Lemma no_acquire_after_dispose s a s' :
   disposed s = true -> step s a = Some s' -> acquired s' = acquired s /\ disposed s' = true.
 Proof.
   intros D H. unfold step in H. destruct (env_ok s a); [|discriminate]. injection H as <-.
-  destruct s as [ls ot vc rg hr dp pe re ac rl]. cbn in *. subst dp.
+  destruct s as [ls ot vc rg hr dp pe re ac rl nb]. cbn in *. subst dp.
   destruct a; cbn; unfold on_removed; cbn; auto; try (destruct hr; cbn; auto).
 Qed.
 
@@ -146,7 +147,7 @@ Lemma run_acquires : forall n s, pending s = n ->
 Proof.
   induction n as [|n IH]; intros s P; cbn.
   - exists s. auto.
-  - destruct s as [ls ot vc rg hr dp pe re ac rl]. cbn in P. subst pe. unfold step. cbn.
+  - destruct s as [ls ot vc rg hr dp pe re ac rl nb]. cbn in P. subst pe. unfold step. cbn.
     match goal with |- exists s', run ?x _ = _ /\ _ => destruct (IH x eq_refl) as [s' [R [A [B [C D]]]]] end.
     exists s'. cbn in *. auto.
 Qed.
@@ -157,7 +158,7 @@ Lemma run_releases : forall n s, releasing s = n ->
 Proof.
   induction n as [|n IH]; intros s P; cbn.
   - exists s. auto.
-  - destruct s as [ls ot vc rg hr dp pe re ac rl]. cbn in P. subst re. unfold step. cbn.
+  - destruct s as [ls ot vc rg hr dp pe re ac rl nb]. cbn in P. subst re. unfold step. cbn.
     match goal with |- exists s', run ?x _ = _ /\ _ => destruct (IH x eq_refl) as [s' [R [A [B [C D]]]]] end.
     exists s'. cbn in *. auto.
 Qed.
@@ -202,3 +203,74 @@ Lemma drain_fold s :
 Proof.
   destruct (drain_quiesces s) as [s' [R [Q _]]]. exists s'. split; [exact R|]. split; [apply run_fold, R|exact Q].
 Qed.
+
+(* ---- fault injection: di.AddReference(nil, false) may return nil ---- *)
+(* the safety half of the invariant survives (the reference is then simply not
+   held until a later HandleValueAdded retries); "held while links exist" needs
+   the interface contract "will never return nil" *)
+Record safe_inv (s : state) : Prop := mk_safe {
+  f_others : others s = 0%nat;
+  f_vc : val_count s = length (links s);
+  f_rigid : rigid s = true -> val_count s <> 0%nat /\ disposed s = false;
+  f_live : acquired s = (released s + b2n (rigid s) + releasing s)%nat;
+  f_ref : has_ref s = false -> disposed s = true
+}.
+
+Lemma safe_init : safe_inv init.
+Proof. constructor; cbn; try reflexivity; try congruence; try lia. Qed.
+
+Lemma safe_step s a s' :
+  safe_inv s -> safe_action a = true -> step s a = Some s' -> safe_inv s'.
+Proof.
+  intros [Io Iv Ir Il If] La H. unfold step in H.
+  destruct (env_ok s a) eqn:E; [|discriminate]. injection H as <-.
+  destruct s as [ls ot vc rg hr dp pe re ac rl nb]. cbn in *.
+  destruct a; cbn in *; try discriminate.
+  - destruct rg, dp; cbn in *; fin.
+  - apply mem_in in E. pose proof (remove_one_length _ _ E) as L.
+    unfold on_removed; cbn.
+    destruct vc as [|vc]; [lia|]. cbn [Nat.pred].
+    destruct (Nat.eqb vc 0) eqn:Z0; [apply Nat.eqb_eq in Z0|apply Nat.eqb_neq in Z0];
+      destruct rg, dp; cbn in *; fin.
+  - destruct pe as [|pe]; [discriminate|].
+    destruct (Nat.eqb vc 0) eqn:Z0; [apply Nat.eqb_eq in Z0|apply Nat.eqb_neq in Z0];
+      destruct rg, dp, (Nat.eqb nb 0); cbn in *; fin.
+  - destruct re as [|re]; [discriminate|]. destruct rg, dp; cbn in *; fin.
+  - destruct hr, rg, dp; cbn in *; fin.
+  - destruct rg, dp; cbn in *; fin.
+Qed.
+
+Lemma safe_run : forall acts s s',
+  safe_inv s -> forallb safe_action acts = true -> run s acts = Some s' -> safe_inv s'.
+Proof.
+  induction acts as [|a acts IH]; intros s s' I L H; cbn in *.
+  - injection H as <-. exact I.
+  - apply andb_true_iff in L as [La L].
+    destruct (step s a) as [s1|] eqn:E; [|discriminate].
+    eapply IH; [eapply safe_step; eauto|exact L|exact H].
+Qed.
+
+Lemma safe_with_nil_references acts s :
+  forallb safe_action acts = true -> run init acts = Some s ->
+  live s = (b2n (rigid s) + releasing s)%nat
+  /\ (rigid s = true -> links s <> [] /\ disposed s = false)
+  /\ (links s = [] \/ disposed s = true -> rigid s = false /\ live s = releasing s)
+  /\ (quiescent s = true -> (live s <= 1)%nat).
+Proof.
+  intros L H. pose proof (safe_run _ _ _ safe_init L H) as [Io Iv Ir Il If].
+  unfold live.
+  assert (R0 : rigid s = true -> links s <> [] /\ disposed s = false).
+  { intros R. destruct (Ir R) as [A B]. split; [|exact B]. intros E. rewrite Iv, E in A. cbn in A. congruence. }
+  split; [lia|]. split; [exact R0|]. split.
+  - intros G. assert (R : rigid s = false).
+    { destruct (rigid s) eqn:R; [|reflexivity]. destruct (R0 eq_refl) as [A B]. destruct G; congruence. }
+    rewrite R in Il. cbn in Il. split; [exact R|lia].
+  - unfold quiescent. intros Q. apply andb_true_iff in Q as [_ Q]. apply Nat.eqb_eq in Q.
+    destruct (rigid s); cbn in Il; lia.
+Qed.
+
+(* a nil return really loses the reference until the next add: witness *)
+Lemma nil_reference_not_retried :
+  exists s, run init [SetNil 1; Added 1; RunAcquire]%nat = Some s /\ quiescent s = true /\
+            links s <> [] /\ disposed s = false /\ live s = 0%nat.
+Proof. eexists. split; [vm_compute; reflexivity|]. cbn. repeat split; congruence. Qed.
